@@ -276,3 +276,50 @@ func funcsIn(s flowx.Set) []*types.Func {
 	sort.Slice(out, func(i, j int) bool { return out[i].FullName() < out[j].FullName() })
 	return out
 }
+
+// funcFlow returns the cached field flow of one function.
+func (c *Ctx) funcFlow(fi *load.FuncInfo) *fieldFlow {
+	if c.flows == nil {
+		c.flows = map[*load.FuncInfo]*fieldFlow{}
+	}
+	if ff, ok := c.flows[fi]; ok {
+		return ff
+	}
+	ff := newFieldFlow()
+	if fi.Body() != nil {
+		collectFieldFlow(ff, fi.Info(), fi.Node())
+	}
+	c.flows[fi] = ff
+	return ff
+}
+
+// writersOf lists module functions that write struct field f (literal key, assignment, index assignment, inc/dec).
+func (c *Ctx) writersOf(f *types.Var) []*load.FuncInfo {
+	var out []*load.FuncInfo
+	for _, fi := range c.P.AllFuncs {
+		if _, ok := c.funcFlow(fi).writes[f]; ok {
+			out = append(out, fi)
+		}
+	}
+	return out
+}
+
+// readersOf lists module functions that read struct field f.
+func (c *Ctx) readersOf(f *types.Var) []*load.FuncInfo {
+	var out []*load.FuncInfo
+	for _, fi := range c.P.AllFuncs {
+		if c.funcFlow(fi).reads[f] {
+			out = append(out, fi)
+		}
+	}
+	return out
+}
+
+func funcNames(fs []*load.FuncInfo) []string {
+	var out []string
+	for _, f := range fs {
+		out = append(out, f.Name())
+	}
+	sort.Strings(out)
+	return out
+}
